@@ -308,11 +308,12 @@ C05_DRIFT = ["internal/raterun/runner.go::Runner.Start", "internal/raterun/runne
 prop(
     id="C05",
     stages=[dict(name="c05runs", pkg="c05", test="TestC05Runs", access=[RUN_ACCESS, WORKERS_ACCESS], timeout_quick=400, timeout_thorough=3000),
+            dict(name="c05locks", pkg="c05", test="TestC05Locks", access=[RUN_ACCESS, WORKERS_ACCESS], timeout_quick=400, timeout_thorough=3000),
             dict(name="c05gate", pkg="c05", test="TestC05Gate", access=[RUN_ACCESS, WORKERS_ACCESS], instrument=True, drift=C05_DRIFT,
                  timeout_quick=400, timeout_thorough=3000)],
     rule="(a) real Run.Do for every trigger mode (constant, staged, ramp, gaussian, users, file) x ending (max-duration, trigger duration, limit, cancel at a random instant, cancel before/at start, setup failure) x body pattern "
          "(instant, sleeping, blocked until after the end, never finishing with a short completion timeout): returns within its bound (30s watchdog), no body starts after the return, every started body finished at the return "
-         "unless the timeout expired, no start after the deadline (+60ms), goroutine-leak check; oracle = extracted predicate c05_ok; (b) gate script on sources instrumented from the working tree: the progress runner is parked "
+         "unless the timeout expired, no start after the deadline (+60ms), goroutine-leak check; oracle = extracted predicate c05_ok; (a') the calls the progress reporter and Run.Do make on the shared Result while a run is triggering, replayed against each other 150000 (thorough 1.5 million) times: a recursive read lock would wedge them; (b) gate script on sources instrumented from the working tree: the progress runner is parked "
          "just before dispatching a due tick and released when main is between the nested read locks of the final rendering; the run must still return; the sync-op listing of the functions the run-level model covers is "
          "compared with the committed one; non-trivial = anything but (instant bodies, max-duration); distinct = distinct observations",
     assumptions=["sync.RWMutex is writer-preferring (a pending Lock blocks new RLocks), as documented", "Go timers never fire early; wall-clock punctuality is the runtime's (one-sided checks with slack)",
